@@ -27,6 +27,8 @@ struct Scenario {
     preexisting: bool,
     /// one content comes from a SimReader (input-stream faults)
     sim_source: bool,
+    /// a second content pack handed to finalize() as an "extra" pack in its own atomic file
+    extra: bool,
     seed: u64,
 }
 
@@ -58,6 +60,7 @@ fn scenarios(seed: u64, tier: Tier) -> Vec<Scenario> {
                         n,
                         preexisting,
                         sim_source: false,
+                        extra: false,
                         seed: simcore::prng::hash_label(seed, "c09-scenario", k),
                     });
                     k += 1;
@@ -72,9 +75,24 @@ fn scenarios(seed: u64, tier: Tier) -> Vec<Scenario> {
             n: 2,
             preexisting: false,
             sim_source: true,
+            extra: false,
             seed: simcore::prng::hash_label(seed, "c09-scenario-sim", k),
         });
         k += 1;
+        // an extra content pack next to the main one
+        if packaging != Packaging::BasicTwo || tier == Tier::Thorough {
+            out.push(Scenario {
+                id: format!("{}-extrapack", packaging.name()),
+                packaging,
+                comp: Comp::Zstd(3),
+                n: 3,
+                preexisting: false,
+                sim_source: false,
+                extra: true,
+                seed: simcore::prng::hash_label(seed, "c09-scenario-extra", k),
+            });
+            k += 1;
+        }
     }
     out
 }
@@ -103,14 +121,14 @@ fn logical_for(s: &Scenario, old: bool) -> Logical {
                 } else {
                     SrcKind::Cursor
                 },
-                pack: 1,
+                pack: if s.extra && !old { 1 + (i as u16 % 2) } else { 1 },
             }
         })
         .collect();
     Logical {
         comp: s.comp,
         packaging: s.packaging,
-        n_packs: 1,
+        n_packs: if s.extra && !old { 2 } else { 1 },
         contents,
         schema: SchemaSpec {
             key_prefix: 1,
@@ -227,6 +245,7 @@ pub fn child_main(args: &Args) -> ! {
         n: sc["n"].as_u64().unwrap() as usize,
         preexisting: sc["preexisting"].as_bool().unwrap(),
         sim_source: sc["sim_source"].as_bool().unwrap(),
+        extra: sc["extra"].as_bool().unwrap_or(false),
         seed: sc["seed"].as_u64().unwrap(),
     };
     let logical = logical_for(&s, old);
@@ -528,7 +547,11 @@ fn judge(
         return (Some(format!("destination exists but is not a complete file: {e}")), "bad");
     }
     // every file the packaging is expected to produce must be there and complete
-    for p in gen::expected_files(s.packaging, case_dir, NAME) {
+    let mut expected = gen::expected_files(s.packaging, case_dir, NAME);
+    if s.extra {
+        expected.push(case_dir.join(format!("{NAME}.x2.jbkc")));
+    }
+    for p in expected {
         let name = p.file_name().unwrap().to_string_lossy().to_string();
         let Ok(bytes) = std::fs::read(&p) else {
             return (
@@ -593,7 +616,7 @@ pub fn worker_main(args: &Args, w: usize, n: usize) -> ! {
         std::fs::write(
             &sc_file,
             json!({"id": s.id, "packaging": s.packaging.name(), "comp": if s.comp == Comp::None {"none"} else {"zstd"},
-                   "n": s.n, "preexisting": s.preexisting, "sim_source": s.sim_source, "seed": s.seed})
+                   "n": s.n, "preexisting": s.preexisting, "sim_source": s.sim_source, "extra": s.extra, "seed": s.seed})
             .to_string(),
         )
         .unwrap();
@@ -806,7 +829,7 @@ pub fn replay_main(args: &Args, file: &str) -> ! {
     std::fs::write(
         &sc_file,
         json!({"id": s.id, "packaging": s.packaging.name(), "comp": if s.comp == Comp::None {"none"} else {"zstd"},
-               "n": s.n, "preexisting": s.preexisting, "sim_source": s.sim_source, "seed": s.seed})
+               "n": s.n, "preexisting": s.preexisting, "sim_source": s.sim_source, "extra": s.extra, "seed": s.seed})
         .to_string(),
     )
     .unwrap();
